@@ -423,11 +423,22 @@ pub fn run(tier: &str) -> i32 {
             ns.push((n, rng.chance(2, 3)));
         }
     }
+    // a worker count whose scope list already breaks a tiling clause is reported by
+    // oracle 1; simulating it too only shows the consequence (keep a handful)
+    let mut kept_bad = 0;
+    ns.retain(|(n, _)| {
+        if tiling_bad_n.contains(n) {
+            kept_bad += 1;
+            kept_bad <= 6
+        } else {
+            true
+        }
+    });
     let ns2 = ns.clone();
     let cases = par_map(ns.len(), workers(), move |i| {
         let (n, faults_on) = ns2[i];
         let seed = run_seed(vs, "C16", if faults_on { "cons-f" } else { "cons" }, i as u64);
-        gen_cons_case(n, seed, faults_on)
+        fresh_thread(|| gen_cons_case(n, seed, faults_on))
     });
     let mut logfold = Fold::new();
     for c in cases.into_iter().flatten() {
@@ -465,11 +476,15 @@ pub fn run(tier: &str) -> i32 {
                 ev.probe("conservation_failures_explained_by_tiling", 1);
                 continue;
             }
+            if ev.violations.iter().filter(|v| !v.oracle.starts_with("tiling")).count() >= 3 {
+                ev.probe("further_violations_not_minimised", 1);
+                continue;
+            }
             // minimise: keep n (the scopes are the point), shrink scenario and schedule
             let nworkers = c.nworkers;
             let okey2 = okey.clone();
             let fails = move |r: &Run| -> bool {
-                check_conservation(r, nworkers)
+                fresh_thread(|| check_conservation(r, nworkers))
                     .key
                     .map(|(k, _)| k == okey2)
                     .unwrap_or(false)
@@ -484,7 +499,7 @@ pub fn run(tier: &str) -> i32 {
                     max_candidates: 150,
                 },
             );
-            let fin = check_conservation(&min, nworkers);
+            let fin = fresh_thread(|| check_conservation(&min, nworkers));
             let detail = fin.key.as_ref().map(|x| x.1.clone()).unwrap_or(detail.clone());
             let mut rj = min.to_json();
             rj["kind"] = json!("c16_conservation");
